@@ -596,3 +596,16 @@ def r8_claimed_before_open(repo, report):
                   why=(f"under {wrong[0]['path_condition']} the path is not registered: a file that does not exist yet (every fresh output) is never claimed, so the second writer on it is not refused" if wrong else ""))
     report.ob("C04.R8", "OutputFiles: a claim refuses a path it has seen, in resolved form", ok, facts={"test": src(expand(cm, tests[0].left)) if tests else None, "stored": src(expand(cm, adds[0].args[0])) if adds else None, "raises": raises}, loc=repo.loc(cm),
               expected="resolved = os.path.realpath(path); if resolved in self._claimed: raise ...; self._claimed.add(resolved)")
+    # the set of claimed paths is the instance's own, empty when the run starts: a class-level container is one object for
+    # every OutputFiles of the process, and a second run (main() called again, a test suite, a notebook) is refused its
+    # own files
+    for sname in sorted(sets):
+        attr = sname.split(".", 1)[1]
+        init = cls.methods.get("__init__")
+        fresh = [n for n in (strip_docstring(init.body) if init else []) if isinstance(n, (ast.Assign, ast.AnnAssign)) and chain(n.targets[0] if isinstance(n, ast.Assign) else n.target) == sname and n.value is not None
+                 and ((isinstance(n.value, ast.Call) and chain(n.value.func) == "set" and not n.value.args) or (isinstance(n.value, ast.Set) and not n.value.elts))]
+        class_level = [src(n)[:60] for n in cls.node.body if isinstance(n, (ast.Assign, ast.AnnAssign)) and chain(n.targets[0] if isinstance(n, ast.Assign) else n.target) == attr and getattr(n, "value", None) is not None]
+        okf = len(fresh) == 1 and not class_level
+        report.ob("C04.R8", f"OutputFiles: {sname} starts empty with every instance", okf, facts={"in __init__": [src(n) for n in fresh], "class_level": class_level}, loc=repo.loc(cls.node),
+                  expected=f"{sname} = set() as an unconditional statement of __init__, no class-level container of that name",
+                  why=("" if okf else f"{sname} is {'a class attribute (' + class_level[0] + ')' if class_level else 'not created in __init__'}: every OutputFiles object of the process shares one set that is never emptied, so a second run with the same {{name}} template is refused all of its output files"))
